@@ -8,6 +8,7 @@ from .. import argalign
 from ..cfg import CFG
 from ..core import AnalysisError, call_name, calls_in, is_self_attr, param_names, walk_local
 from ..grammar import G, PARAM_SLOTS
+from . import common
 
 EXPLANATION = (
     "R06.1: every function of the signature-handling modules that destructures ast.arguments (a) reads all five "
@@ -26,6 +27,7 @@ EXPLANATION += ' R06.13: mapping keys read off args_with_defaults are names (two
 EXPLANATION += ' R06.12: the positional part of a rebuilt call is cut short only when no surplus positional arguments follow.'
 EXPLANATION += ' R06.10: a `col_offset`/`end_col_offset` of an AST node (UTF-8 bytes) reaches a character offset only through codeanalyze.column_to_offset; it is otherwise only compared, or is the start column of a node tested to be a statement. R06.11: a function that remembers its answer under a key reads, in the computation of the remembered value, nothing of its parameters that the key does not contain (followed into the helpers it calls).'
 EXPLANATION += " R06.15: the readers of calls and definitions remove exactly the star prefix their test established (the writer puts exactly that prefix back)."
+EXPLANATION += " R06.17: call sites are rewritten from the last to the first on a working text (the region of a call contains its arguments, which can hold another call of the changed function); no parenthesis-ended region is collected as an independent replacement."
 EXPLANATION += " R06.16: inside the loop over the files of a refactoring no handler swallows an error (a file is never silently left out of a multi-file change)."
 ASSUMPTIONS = ["alignment rule of the language reference as recorded in sa/grammar.py DEFAULT_ALIGNMENT",
                "a node of the analysed program = anything derived from self.ast / ast.parse(...) inside the parser classes"]
@@ -321,6 +323,7 @@ def check(ctx, res) -> None:
     from .common import per_file_no_skip_rule as _pf
 
     _pf(ctx, res, "R06.16", ('rope.refactor.change_signature', 'rope.refactor.introduce_parameter'))
+    _nested_call_regions_rule(ctx, res)
 
 
 def _surplus_positionals_rule(ctx, res) -> None:
@@ -440,3 +443,47 @@ def _star_prefix_symmetry_rule(ctx, res) -> None:
                     "established -- the second mapping of `f(1, **base, **extra)` reaches the one-star test as `**base`, is stored as `base`, and the writer puts ONE star "
                     "back: `f(1, *base, **extra)` passes the keys positionally", function=f.qualname)
     res.floor("R06.15", "star prefixes removed by the readers of calls and definitions", n, 2)
+
+
+def _nested_call_regions_rule(ctx, res) -> None:
+    """R06.17: the region that is replaced for one call site reaches from the start of the primary to the closing parenthesis -- it CONTAINS
+    the argument list, and an argument can be another call of the changed function: `f(f(1, 2), 3)`.  Regions of different occurrences are
+    then nested, not disjoint.  Independent (start, end, text) triples whose new text is rebuilt from the ORIGINAL text cannot express
+    that: the outer replacement carries the stale inner call and the collector writes both.  So in the per-module rewriter: (a) no
+    replacement whose end comes from the parenthesis scan is handed to a ChangeCollector; (b) the replacements are spliced into a working
+    text from the LAST occurrence to the first (`reversed`), the text handed to the call changer is cut from that working text, and the
+    parenthesis scan is redone on the working text inside the loop (a Worder built from it)."""
+    idx = ctx.idx
+    f = idx.need_func("rope.refactor.change_signature._ChangeCallsInModule.get_changed_module")
+    fnode = common.inlined(idx, f)
+    paren_ends = set()
+    for a in walk_local(fnode):
+        if isinstance(a, ast.Assign) and isinstance(a.value, ast.Call) and call_name(a.value) == "get_word_parens_range":
+            for t in a.targets:
+                if isinstance(t, ast.Tuple) and len(t.elts) == 2 and isinstance(t.elts[1], ast.Name):
+                    paren_ends.add(t.elts[1].id)
+    if not paren_ends:
+        raise AnalysisError("anchor=_ChangeCallsInModule.get_changed_module: the scan for the closing parenthesis of a call (get_word_parens_range) not found")
+    collected = [c for c in calls_in(fnode) if call_name(c) == "add_change" and len(c.args) >= 2 and isinstance(c.args[1], ast.Name) and c.args[1].id in paren_ends]
+    loops = [l for l in walk_local(fnode) if isinstance(l, ast.For) and any(call_name(c) in ("change_call", "change_definition") for c in calls_in(l))]
+    if not loops:
+        raise AnalysisError("anchor=_ChangeCallsInModule.get_changed_module: the loop over the occurrences not found")
+    lp = loops[0]
+    it = common._subst_single_locals(fnode, lp.iter)
+    backwards = isinstance(it, ast.Call) and call_name(it) == "reversed"
+    spliced = {t.id for a in ast.walk(lp) if isinstance(a, ast.Assign) and isinstance(a.value, ast.BinOp) for t in a.targets if isinstance(t, ast.Name)
+               and any(isinstance(sl, ast.Subscript) and isinstance(sl.value, ast.Name) and sl.value.id == t.id for sl in ast.walk(a.value))}
+    # (every call of the changer: what its text argument is cut from -- a name, or "<other>" for anything else, e.g. `self.source[...]`)
+    cut_from = {(c.args[-1].value.id if isinstance(c.args[-1], ast.Subscript) and isinstance(c.args[-1].value, ast.Name) else "<other>")
+                for c in calls_in(lp) if call_name(c) in ("change_call", "change_definition") and c.args}
+    rescans = any(call_name(c) == "Worder" and c.args and isinstance(c.args[0], ast.Name) and c.args[0].id in spliced for c in calls_in(lp))
+    sequential = backwards and bool(spliced) and cut_from <= spliced and bool(cut_from) and rescans
+    ok = not collected and sequential
+    why = ("the replacements reach to the closing parenthesis and are collected as independent regions (`add_change(start, end_parens, ...)`)" if collected else
+           "the occurrences are not rewritten from the last to the first" if not backwards else
+           "the text handed to the call changer is not cut from the working text the replacements are spliced into" if not (spliced and cut_from and cut_from <= spliced) else
+           "the closing parenthesis is not looked for again on the working text after an inner call was rewritten")
+    res.add("R06.17", "_ChangeCallsInModule.get_changed_module|nested-call-regions", ok, f.where,
+            "call sites are rewritten from the last to the first on a working text: a call among the arguments of another call is rewritten first and the outer call takes its new text" if ok else
+            f"get_changed_module: {why}.  The region of a call contains its arguments, and an argument can be another call of the changed function: for `f(f(1, 2), 3)` two overlapping "
+            "replacements are written -- the inner call is not updated inside the outer one and the tail of the outer call is duplicated (a corrupted module, silently)", function=f.qualname)
